@@ -402,8 +402,12 @@ def sdss_objid(run, camcol, field, objnum, rerun=301, skyversion=None,
     if ((objnum < 0) | (objnum >= 2**16)).any():
         raise ValueError("id values are out-of-bounds!")
     #
-    # Compute the objid
+    # Compute the objid in 64-bit integers, whatever the width of the inputs
+    # (e.g. int16 or int32 columns read from a FITS table).
     #
+    skyversion, rerun, run, camcol, firstfield, field, objnum = [
+        np.asarray(a).astype(np.int64) for a in
+        (skyversion, rerun, run, camcol, firstfield, field, objnum)]
     objid = ((skyversion << 59) |
              (rerun << 48) |
              (run << 32) |
